@@ -1002,6 +1002,7 @@ func localfsRun(args []string) int {
 		trace: NewTrace(o.Out), seen: map[string]bool{}, defs: map[string]bool{}, bySeed: map[uint64]localfsContent{},
 		stats: NewStats("localfs", "one case = one fresh directory tree and a sequence of real LocalBackend calls in a strace'd child process (or 4 readers x 2 writers in-process); distinct by the sequence of (call, outcome, number of system calls, new directories); counted as non-trivial when at least one upload went through temp file + rename (or, for readers, at least two different values were read)")}
 	code := 0
+	famTime := map[string]time.Duration{}
 	start := time.Now()
 	run := func(cs []*localfsCase) {
 		for _, c := range cs {
@@ -1010,7 +1011,10 @@ func localfsRun(args []string) int {
 				g.stats.Count("search-cases-skipped-deadline")
 				continue
 			}
-			if err := g.localfsRunCase(c); err != nil {
+			t0 := time.Now()
+			err := g.localfsRunCase(c)
+			famTime[strings.SplitN(c.Name, "/", 2)[0]] += time.Since(t0)
+			if err != nil {
 				fmt.Fprintln(os.Stderr, "localfs:", c.Name+":", err)
 				g.stats.Notes = append(g.stats.Notes, "engine error: "+c.Name+": "+err.Error())
 				code = 3
@@ -1071,6 +1075,11 @@ func localfsRun(args []string) int {
 		}
 	}
 	g.trace.Close()
+	for _, k := range []string{"imm", "trace", "keys", "kill", "conc"} {
+		if d, ok := famTime[k]; ok {
+			g.stats.Notes = append(g.stats.Notes, fmt.Sprintf("wall time of family %s: %.1fs", k, d.Seconds()))
+		}
+	}
 	g.stats.Exhaustive = false
 	Finish(o.Out, g.stats, g.fails)
 	return code
